@@ -480,6 +480,10 @@ def call_method(ip, st, recv, name, args, kwargs):
         if st.branch(bad):
             _raise(UnicodeEncodeError, "surrogates not allowed")
         return enc_t
+    if getattr(recv, "is_text", False) and name == "isascii" and recv.kind == "str" and not args:
+        from .text import isascii_of_text
+
+        return isascii_of_text(st, recv)
     if getattr(recv, "is_text", False) and name == "upper" and recv.kind == "str" and not args:
         from .text import upper_of_char_text
 
